@@ -1,5 +1,5 @@
 # replay of a bounded stand-in violation (C13): re-run native/c13_tdm.py
 import sys
-print('delays=[1, 2], leading identity bins per loop=[1, 1]: get_crop_value() = 2, in the hand-written loop the first 1 detected pulses are vacuum and pulse 1 carries light')
+print('TDM N=3, 3 time bins, shift=2: the unrolled circuit addresses modes [(2,), (0, 2), (2,), (0,), (0,), (1, 0), (0,), (1,)]..., a left rotation by 2 per bin gives [(2,), (0, 2), (2,), (0,), (1,), (2, 1), (1,), (2,)]...')
 print('REPLAY-VIOLATION')
 sys.exit(1)
